@@ -219,7 +219,7 @@ Fixpoint rep (n : nat) (c : ascii) : string :=
   match n with O => EmptyString | S k => String c (rep k c) end.
 
 (* DNS-legal namespaces (<= 63 bytes) and names (<= 253 bytes) give file names beyond NAME_MAX = 255:
-   os.Create fails and LocalManager.createConfig ends the process (finding F95).  The schemes would
+   os.Create fails and LocalManager.createConfig ends the process (finding F97).  The schemes would
    have to shorten such names -- injectively. *)
 Lemma file_name_length_refuted :
   exists ns name,
